@@ -21,3 +21,48 @@ Definition tally_small (tol x : T) : N * N * N :=
 Definition flat_mats (bs : list (Mat (T:=T))) : list (C (T:=T)) := concat (concat bs).
 Definition cflat (x : list (list (C (T:=T)))) : list (C (T:=T)) := concat x.
 End OB.
+
+Section OB2.
+Context {T : Type} (Op : Ops T (option bool)).
+Notation Matc := (Mat (T:=T)).
+Notation Cc := (C (T:=T)).
+
+(* implementation's flag (True = property holds) against the model's violation test *)
+Definition tally_flag (impl : bool) (viol : option bool) : N * N * N := tallyB impl (option_map negb viol).
+Definition flags_case (d : nat) (bs : list Matc) (ih io it : bool) : N * N * N :=
+  tadd (tally_flag ih (isherm_viol Op d bs))
+       (tadd (tally_flag io (isorthonorm_viol Op d bs)) (tally_flag it (istraceless_viol Op d bs))).
+
+Definition outcome_code (o : fp_outcome) : nat :=
+  match o with FpOk false => 0 | FpOk true => 1 | FpNotOrthonormal => 2 | FpNotTraceless => 3 | FpBadLabels => 4 end.
+(* control flow of _full_from_partial.  The flags are evaluated on the implementation's normalised
+   elements [en] (exact binary64 values: the exact comparisons of istraceless are decidable on them);
+   the normalisation itself is compared separately. *)
+Definition tally_outcome (impl : nat) (d : nat) (elems en : list Matc) (en_impl : list ((Z*Z)*(Z*Z))) (tol : T)
+           (traceless : option bool) (labels_ok : bool) : N * N * N :=
+  tadd (tallyC Op tol en_impl (flat_mats (normalize Op d elems)))
+  (match isorthonorm_viol Op d en with
+  | None => (0, 1, 0)%N
+  | Some true => tallyNat impl (outcome_code (fp_control true false traceless labels_ok))
+  | Some false =>
+      match istraceless_viol Op d en with
+      | None => (0, 1, 0)%N
+      | Some tv => tallyNat impl (outcome_code (fp_control false tv traceless labels_ok))
+      end
+  end).
+
+(* numeric part of _full_from_partial: coefficient matrix, oracle validation, completed basis *)
+Definition fp_case (d : nat) (traceless herm : bool) (elems : list Matc)
+           (coeffs_impl : list ((Z*Z)*(Z*Z))) (A Nn : list (list Cc)) (basis_impl : list ((Z*Z)*(Z*Z)))
+           (tol tol_orc : T) : N * N * N :=
+  let en := normalize Op d elems in
+  let cm := fp_coeffs Op d traceless herm en in
+  let W := A ++ Nn in
+  let WT := build (length (fp_ggm Op d traceless)) (fun j => map (fun row => cconj Op (nth j row (c0 Op))) W) in
+  tadd (tallyC Op tol coeffs_impl (cflat cm))
+  (tadd (match A with [] => (1, 0, 0)%N | _ => tadd (tally_small Op tol_orc (rows_orth_residual Op W))
+                                                    (tally_small Op tol_orc (rows_orth_residual Op WT)) end)
+        (tallyC Op tol basis_impl (flat_mats (fp_basis Op d traceless A Nn)))).
+
+Definition rlist (l : list (list ((Z*Z)*(Z*Z)))) : list (list Cc) := map (map (cdy Op)) l.
+End OB2.
